@@ -1,6 +1,7 @@
 //! Harness binary `h_noise <PROP> --seed S --tier T [--count N] [--replay F]`.
 //! One module per property (`cNN.rs`, `pub fn run(args: &hcore::Args, out: &mut hcore::Out)`).
 
+mod c16;
 mod c17;
 
 fn main() {
@@ -11,6 +12,7 @@ fn main() {
     }
     let mut out = hcore::Out::new();
     match args.prop.as_str() {
+        "C16" => c16::run(&args, &mut out),
         "C17" => c17::run(&args, &mut out),
         p => {
             let _ = &mut out;
